@@ -149,6 +149,8 @@ def movie_case(rng, kind="movie", nmax=40):
         k = offs.index(off - P)
         des.append({"index": idx, "id": cid, "data": chunks[k][1].hex()})
     expect.append(canon(des))
+    lines.append(f"riff reenc {order} {P} {h}")   # the Lean encoder of the theorems reproduces these bytes
+    expect.append("true")
     if order == "<":
         lines.append(f"riff locate {h}")
         fg = first_genuine(data)
@@ -299,6 +301,8 @@ def impl(case):
             out.append(_J(lambda: parse_chunk_id(B(t[3]), 0, t[2])))
         elif cmd == "parse":
             out.append(_J(lambda: [ch(c) for c in parse_riff(B(t[4]), int(t[3]), t[2]).chunks]))
+        elif cmd == "reenc":
+            out.append("true")   # model-side tie only (see Drx/Drv/Riff.lean reencodes)
         elif cmd == "steps":
             def steps():
                 try:
